@@ -278,3 +278,65 @@ Fixpoint guard_prefix (P : list pkgid) (NM : list name) (s : sstate) (ops : list
   | [] => 0
   | o :: ops' => if guard_step P NM s o then S (guard_prefix P NM (sstep s o) ops') else 0
   end.
+
+(* ---- qualified writes (added after seeded change C13-13).  p:n reaches what p exports, p::n any definition
+   of p, for writing as for reading: a qualified setq of a variable it reaches is the setq made in p; one that
+   reaches nothing changes nothing.  A qualified defvar leaves a variable it reaches alone when it has a value
+   and gives it the value otherwise; a variable it does not reach (not exported, one colon, another current
+   package) is left alone; a name p does not resolve is defined in p.  (In p itself p:n is p's own name: the
+   code's Package.Get answers for the current package.) ---- *)
+Definition sas_pkg (s : sstate) (p : pkgid) (o : op) : sstate := sstep (sstep (sstep s (OInPkg p)) o) (OInPkg (s_cur s)).
+Definition s_setq_q (s : sstate) (p : pkgid) (n : name) (v : Z) (priv : bool) : sstate :=
+  match resolve_v s p n with
+  | Some a => match s_vheap s a with
+              | Some vv => if vv_export vv || priv then sas_pkg s p (OSetq n v) else s
+              | None => s end
+  | None => s
+  end.
+Definition s_defvar_q (s : sstate) (p : pkgid) (n : name) (v : Z) (priv : bool) : sstate :=
+  match resolve_v s p n with
+  | Some a => match s_vheap s a with
+              | Some vv => if vv_export vv || priv || N.eqb (s_cur s) p then
+                             match vv_val vv with Some _ => s | None => sas_pkg s p (OSetq n v) end
+                           else s
+              | None => s end
+  | None => sas_pkg s p (OSetq n v)
+  end.
+Definition sxstep (s : sstate) (o : xop) : sstate :=
+  match o with
+  | XB o => sstep s o
+  | XSetqQ p n v priv => s_setq_q s p n v priv
+  | XDefvarQ p n v priv => s_defvar_q s p n v priv
+  end.
+(* the variable p resolves under n is private, has a value, and p is not the current package: the one place
+   where the code's qualified defvar differs from S (known finding C13-defvar-private-qualified-overwrites:
+   Package.Get does not answer, so (defvar p::n v) takes the variable for unbound and overwrites it) *)
+Definition private_bound_elsewhere (s : sstate) (p : pkgid) (n : name) : bool :=
+  match resolve_v s p n with
+  | Some a => match s_vheap s a with
+              | Some vv => negb (vv_export vv) && negb (N.eqb (s_cur s) p) &&
+                           match vv_val vv with Some _ => true | None => false end
+              | None => false end
+  | None => false
+  end.
+Definition xguard_step (P : list pkgid) (NM : list name) (s : sstate) (o : xop) : bool :=
+  match o with
+  | XB o => guard_step P NM s o
+  | XSetqQ p n v priv => mem n NM
+  | XDefvarQ p n v priv => mem n NM && negb (priv && private_bound_elsewhere s p n)
+  end.
+Fixpoint sxrun (P : list pkgid) (VN FN : list name) (s : sstate) (ops : list xop) : list (list qres) :=
+  match ops with
+  | [] => []
+  | o :: ops' => let s' := sxstep s o in sobserve P VN FN s' :: sxrun P VN FN s' ops'
+  end.
+Fixpoint xguard_run (P : list pkgid) (NM : list name) (s : sstate) (ops : list xop) : bool :=
+  match ops with
+  | [] => true
+  | o :: ops' => xguard_step P NM s o && xguard_run P NM (sxstep s o) ops'
+  end.
+Fixpoint xguard_prefix (P : list pkgid) (NM : list name) (s : sstate) (ops : list xop) : nat :=
+  match ops with
+  | [] => 0
+  | o :: ops' => if xguard_step P NM s o then S (xguard_prefix P NM (sxstep s o) ops') else 0
+  end.
